@@ -606,7 +606,19 @@ def strategies_for(cls, base):
     indep = st.builds(lambda rs, o, ow: dict(base, mode="independent", recipes=rs, origins=o, overwrite=ow),
                       st.lists(partial_recipe, min_size=3, max_size=3),
                       st.lists(st.sampled_from(ORIGINS + ["complete"]), min_size=3, max_size=3), st.booleans())
-    return st.one_of(split, split, indep)
+    # the same data three times, by different ways of obtaining it (one operand is a complete object whose nested
+    # values are complete models, the others are parsed, with some top-level fields dropped): every nested position
+    # present twice is of mixed provenance
+    def _overlap(r, d1, d2, o1, o2, perm, ow):
+        def drop(d):
+            return {k: v for i, (k, v) in enumerate(sorted(r.items())) if (d >> i) & 1 == 0}
+
+        rs, os_ = [r, drop(d1), drop(d2)], ["complete", o1, o2]
+        return dict(base, mode="independent", recipes=[rs[i] for i in perm], origins=[os_[i] for i in perm], overwrite=ow)
+
+    overlap = st.builds(_overlap, recipe, st.integers(0, 2 ** 12), st.integers(0, 2 ** 12), st.sampled_from(ORIGINS),
+                        st.sampled_from(ORIGINS), st.permutations([0, 1, 2]), st.booleans())
+    return st.one_of(split, split, indep, overlap)
 
 
 def generated_cases():
